@@ -102,6 +102,28 @@ def alpha_zero(rep, rnd):
         rep.violation(f"path() with alpha=0 raised {type(out['err']).__name__}: {out['err']}", {"alpha": 0}, tags=("raises", "alpha-zero"))
 
 
+def dynamic_all_removed(rep, rnd, traces, meta):
+    """dynamic mode, a step that zeroes every remaining feature at once: path() must still terminate normally."""
+    from gemclus.sparse import SparseLinearMMD, SparseMLPMMD, SparseLinearModel
+    rs = np.random.RandomState(0)
+    X = rs.randn(8, 3)
+    X[:4] += 2
+    for cls, kw in ((SparseLinearMMD, {}), (SparseMLPMMD, dict(n_hidden_dim=3)), (SparseLinearModel, dict(gemini="wasserstein_ova"))):
+        for seed in range(3):
+            m = cls(n_clusters=2, max_iter=3, alpha=0.5, learning_rate=0.3, dynamic=True, random_state=seed, **kw)
+            args = dict(alpha_multiplier=3.0, min_features=1, max_patience=2)
+            desc = dict(mode="float", estimator=cls.__name__, dynamic=True, scenario="all remaining features removed in one step", seed=seed, args=args)
+            with warnings.catch_warnings():
+                warnings.simplefilter("ignore")
+                out = path.record_path(m, X, None, max_calls=20000, **args)
+            rep.case(desc)
+            if out["err"] is not None:
+                rep.violation(f"path raised {type(out['err']).__name__}: {out['err']} for {desc}", {"meta": desc}, tags=("raises", "dynamic-empty-selection"))
+                continue
+            traces.append(out["path"])
+            meta.append(desc)
+
+
 def run(tier):
     rep = Report("C07", tier)
     rnd = random.Random(SEED)
@@ -123,6 +145,7 @@ def run(tier):
     traces, meta = [], []
     exact_runs(rep, tier, rnd, traces, meta)
     float_runs(rep, tier, rnd, traces, meta)
+    dynamic_all_removed(rep, rnd, traces, meta)
     alpha_zero(rep, rnd)
     if traces:
         res = trace.validate("PathTrace", traces, invariants=["HistoriesAligned", "LastCountSmall", "PatienceBounds"], timeout=3000)
